@@ -976,6 +976,32 @@ def serializer_flags(prog):
                     want = "1" if nme in NEG_VARIANTS else "0"
                     if vals != {want}:
                         errs.append("compl flag for a %s pointer can be %s (must be %s)" % (nme, sorted(vals), want == "1"))
+    # every pointer the helper *returns* is built for the current edge (a Ptr{index, compl} literal, a private helper that
+    # builds one from the flag it is given, or a constant / literal): a pointer read back from the visited table carries
+    # the complement flag of whichever edge reached the node first
+    ralts = []
+
+    def rcollect(t):
+        t0 = strip(t)
+        if isinstance(t0, tuple) and t0 and t0[0] in ("phi", "gamma"):
+            for _, v in t0[2]:
+                rcollect(v)
+        else:
+            ralts.append(t0)
+    for b, t in te.ret_by_block.items():
+        rcollect(t)
+    for t in ralts:
+        u = t
+        while isinstance(u, tuple) and u and u[0] in ("deref", "ref", "copy"):
+            u = strip(u[1])
+        while mir.is_call(u, "clone") or mir.is_call(u, "copied") or mir.is_call(u, "cloned"):
+            u = strip(u[2][0])
+            while isinstance(u, tuple) and u and u[0] in ("deref", "ref", "copy"):
+                u = strip(u[1])
+        if any(mir.is_call(x, "get") and len(x[2]) == 2 and strip(x[2][0])[0] in ("param", "mutref", "ref", "deref")
+               and "HashMap" in (x[1].key() or "") for x in [u] + list(mir.subterms(u))) and not (u[0] == "agg"):
+            errs.append("a returned pointer is read back from the visited table (%s): its complement flag is that of the edge that "
+                        "first reached the node, not of the current one" % show(t)[:70])
     out.append(inst("CP", "%s:compl-flag" % fn.npath, verdict_of(errs), fn, None,
                     errtext(errs) if errs else "every emitted pointer carries compl = complement bit of the pointer"))
     return out
